@@ -1,0 +1,101 @@
+//go:build verif
+
+package rux
+
+import (
+	"container/list"
+	"fmt"
+)
+
+// This file is compiled only with `-tags verif`. It adds read-only accessors
+// used by the runtime monitors in /verif; it has no call sites in the library.
+
+// VerifCachedRoutes returns the router's route cache (nil if none was created).
+func (r *Router) VerifCachedRoutes() *cachedRoutes {
+	return r.cachedRoutes
+}
+
+// VerifSize returns the configured capacity.
+func (c *cachedRoutes) VerifSize() int {
+	return c.size
+}
+
+// VerifKeys returns the keys from the most recently used to the least recently
+// used one. It does not change the recency order.
+func (c *cachedRoutes) VerifKeys() []string {
+	c.lock.Lock()
+	defer c.lock.Unlock()
+
+	keys := make([]string, 0, c.list.Len())
+	for e := c.list.Front(); e != nil; e = e.Next() {
+		keys = append(keys, e.Value.(*cacheNode).Key)
+	}
+	return keys
+}
+
+// VerifPeek returns the value stored under k without changing the recency order.
+func (c *cachedRoutes) VerifPeek(k string) (*Route, bool) {
+	c.lock.Lock()
+	defer c.lock.Unlock()
+
+	if e, ok := c.hashMap[k]; ok {
+		return e.Value.(*cacheNode).Value, true
+	}
+	return nil, false
+}
+
+// VerifCheck checks the structural invariant of the cache under its own lock.
+func (c *cachedRoutes) VerifCheck() error {
+	c.lock.Lock()
+	defer c.lock.Unlock()
+
+	n := c.list.Len()
+	if n != len(c.hashMap) {
+		return fmt.Errorf("list has %d elements, map has %d", n, len(c.hashMap))
+	}
+	if c.size >= 0 && n > c.size {
+		return fmt.Errorf("cache holds %d entries, capacity is %d", n, c.size)
+	}
+
+	seen := make(map[string]bool, n)
+	var fwd []*list.Element
+	for e := c.list.Front(); e != nil; e = e.Next() {
+		if len(fwd) > n {
+			return fmt.Errorf("forward traversal longer than Len()=%d", n)
+		}
+		node, ok := e.Value.(*cacheNode)
+		if !ok || node == nil {
+			return fmt.Errorf("list element without cacheNode")
+		}
+		if seen[node.Key] {
+			return fmt.Errorf("key %q twice in the list", node.Key)
+		}
+		seen[node.Key] = true
+		if me, ok := c.hashMap[node.Key]; !ok || me != e {
+			return fmt.Errorf("key %q: map does not point at its list element", node.Key)
+		}
+		if node.Value == nil {
+			return fmt.Errorf("key %q: nil route stored", node.Key)
+		}
+		fwd = append(fwd, e)
+	}
+	if len(fwd) != n {
+		return fmt.Errorf("forward traversal saw %d elements, Len()=%d", len(fwd), n)
+	}
+	i := n - 1
+	for e := c.list.Back(); e != nil; e = e.Prev() {
+		if i < 0 || fwd[i] != e {
+			return fmt.Errorf("backward traversal disagrees with forward traversal at %d", i)
+		}
+		i--
+	}
+	if i != -1 {
+		return fmt.Errorf("backward traversal saw %d elements, Len()=%d", n-1-i, n)
+	}
+	return nil
+}
+
+// VerifParams returns the params stored in a cached route copy.
+func (r *Route) VerifParams() Params {
+	return r.params
+}
